@@ -246,6 +246,40 @@ type Rew struct {
 	// bridge-and-liquidity spork mints the epoch's emission to itself); Paid = epochs paid by the receives of this momentum
 	Unconditional bool `json:"unconditional"`
 	Paid          int  `json:"paid"`
+	// bookkeeping of collections: everything ever credited (the sum over Hist), and what the contract asked the token contract
+	// to mint for somebody else in this momentum's receives
+	SumZnn  Digits `json:"sumZnn"`
+	SumQsr  Digits `json:"sumQsr"`
+	MintZnn Digits `json:"mintZnn"`
+	MintQsr Digits `json:"mintQsr"`
+	Known   bool   `json:"known"` // the momentum's blocks were available: MintZnn / MintQsr are meaningful
+}
+
+// mintsAskedBy: the ZNN and QSR the contract c asked the token contract to mint for an address other than itself, in the
+// descendants of its receives among blocks.
+func mintsAskedBy(c string, blocks []*RawBlock) (*big.Int, *big.Int) {
+	z, q := new(big.Int), new(big.Int)
+	for _, b := range blocks {
+		if b.BlockType != 5 || b.Address != c {
+			continue
+		}
+		for _, d := range b.DescendantBlocks {
+			if d.ToAddress != types.TokenContract.String() {
+				continue
+			}
+			param := new(definition.MintParam)
+			if definition.ABIToken.UnpackMethod(param, definition.MintMethodName, d.DataBytes()) != nil || param.ReceiveAddress.String() == c {
+				continue
+			}
+			switch param.TokenStandard {
+			case types.ZnnTokenStandard:
+				z.Add(z, param.Amount)
+			case types.QsrTokenStandard:
+				q.Add(q, param.Amount)
+			}
+		}
+	}
+	return z, q
 }
 
 // LegacyLiquidity is set by drivers that know the liquidity contract runs its pre-spork update (lab walks without the HTLC /
@@ -359,6 +393,13 @@ func Rewards(ms store.Momentum, epochMomentums int64, extra map[string][2]*big.I
 		}
 		it.Release()
 		r.DZnn, r.DQsr = ToDigits(dz), ToDigits(dq)
+		sz, sq := new(big.Int), new(big.Int)
+		for _, e := range es {
+			sz.Add(sz, sums[e][0])
+			sq.Add(sq, sums[e][1])
+		}
+		r.SumZnn, r.SumQsr = ToDigits(sz), ToDigits(sq)
+		r.MintZnn, r.MintQsr = ToDigits(new(big.Int)), ToDigits(new(big.Int))
 		out = append(out, r)
 	}
 	return out
@@ -391,6 +432,12 @@ func StandardObserver(epochMomentums int64) func(p *Projector, h uint64, ms stor
 			}
 		}
 		rews := Rewards(ms, epochMomentums, map[string][2]*big.Int{types.LiquidityContract.String(): maxAdd})
+		if p.LastRaw != nil {
+			for i := range rews {
+				z, q := mintsAskedBy(rews[i].C, p.LastRaw.Blocks)
+				rews[i].MintZnn, rews[i].MintQsr, rews[i].Known = ToDigits(z), ToDigits(q), true
+			}
+		}
 		if LegacyLiquidity && p.LastRaw != nil {
 			for i := range rews {
 				if rews[i].C == types.LiquidityContract.String() {
